@@ -11,7 +11,7 @@ import ast
 
 from sa.astutil import ordn
 
-from sa import AnalysisError
+from sa import AnalysisError, ShapeNotRecognised
 from sa.astutil import parents, protecting_try, in_block, unparse, enclosing
 from sa.cfg import build_cfg, is_catch_all, is_exc_label
 from sa.dataflow import ReachingDefs, Provenance, ControlDependence, target_names
@@ -37,6 +37,12 @@ def _line_loop(p):
             if calls:
                 loops.append((sub, calls))
     if not loops:
+        moved = [f.qual for q2, f in sorted(r.closure([fi]).items()) if f is not fi and not isinstance(f.node, ast.Lambda) and any(
+            isinstance(x, ast.For) and any(isinstance(c, ast.Call) and any(t.qual in PARSE_FUNCS for t in r.callees(f, c)[0]) for c in ast.walk(x))
+            for x in walk_shallow(f.node))]
+        if moved:
+            raise ShapeNotRecognised("the loop that parses the header lines is no longer in %s itself but in %s: the error-handling "
+                                     "clauses are not decided across that structure" % (SECTION_FN, ", ".join(moved)))
         raise AnalysisError("no loop calling read_line/read_header_line found in %s" % SECTION_FN)
     # innermost loop containing the call
     loops.sort(key=lambda lc: -ordn(lc[0]))
@@ -346,6 +352,52 @@ def _needed_len(idx):
     return idx + 1 if idx >= 0 else -idx
 
 
+def _literal_guarded(fi, call):
+    """the text handed to the constructor passed `<regex>.fullmatch(text)` on the way: a guard clause `if not R.fullmatch(t): return/
+    raise-free exit` earlier in the function body, or an enclosing `if R.fullmatch(t):` - a recognised literal converts without raising"""
+    arg = ast.unparse(call.args[0])
+
+    def is_fm(e, positive):
+        neg = False
+        while isinstance(e, ast.UnaryOp) and isinstance(e.op, ast.Not):
+            e, neg = e.operand, not neg
+        return isinstance(e, ast.Call) and isinstance(e.func, ast.Attribute) and e.func.attr == "fullmatch" and e.args \
+            and ast.unparse(e.args[-1]) == arg and (neg != positive)
+    cur = call
+    for par in parents(call):
+        if isinstance(par, ast.If) and in_block(cur, par.body) and is_fm(par.test, True):
+            return True
+        if isinstance(par, ast.If) and in_block(cur, par.orelse) and is_fm(par.test, False):
+            return True
+        body = getattr(par, "body", None)
+        if isinstance(body, list) and any(cur is st for st in body):
+            for st in body[:body.index(cur)]:
+                if isinstance(st, ast.If) and is_fm(st.test, False) and st.body and isinstance(st.body[-1], (ast.Return, ast.Continue)) and not st.orelse:
+                    return True
+        if isinstance(par, (ast.FunctionDef, ast.Lambda)):
+            break
+        cur = par
+    return False
+
+
+def _value_error_caught(call):
+    """int(<text>) / float(<text>) inside a try that catches ValueError: the only exception a str argument can cause"""
+    f = call.func
+    if not (isinstance(f, ast.Name) and f.id in ("int", "float")):
+        return False
+    cur = call
+    for par in parents(call):
+        if isinstance(par, (ast.FunctionDef, ast.Lambda)):
+            return False
+        if isinstance(par, ast.Try) and in_block(cur, par.body):
+            for h in par.handlers:
+                names = {getattr(n, "id", getattr(n, "attr", "")) for n in ast.walk(h.type)} if h.type is not None else set()
+                if "ValueError" in names:
+                    return True
+        cur = par
+    return False
+
+
 def scan_partial_ops(fi, nodes_iter, tainted, skip_protected_from=None, dict_vars=None, producer_keys=None):
     """yield (node, description) for partial operations on tainted data that are not inside a catch-all try.
     tainted(expr) -> bool"""
@@ -391,6 +443,8 @@ def scan_partial_ops(fi, nodes_iter, tainted, skip_protected_from=None, dict_var
             name = f.id if isinstance(f, ast.Name) else (f.attr if isinstance(f, ast.Attribute) else "")
             args_tainted = any(tainted(a) for a in sub.args) or any(tainted(k.value) for k in sub.keywords)
             if name in NUMBER_CTORS and sub.args and args_tainted:
+                if _literal_guarded(fi, sub) or _value_error_caught(sub):
+                    continue
                 yield sub, "number constructor %s on line-derived text outside a catch-all try" % unparse(sub)
             elif isinstance(f, ast.Attribute) and name in PARTIAL_METHODS and (tainted(f.value) or args_tainted):
                 yield sub, "partial method call %s on line-derived data outside a catch-all try" % unparse(sub)
@@ -723,7 +777,7 @@ def rule_every_line(ctx):
                 names = {x.id for x in ast.walk(t) if isinstance(x, ast.Name)}
                 is_blank = (names <= {linevar, "len"} and not any(isinstance(c, ast.Call) and isinstance(c.func, ast.Attribute) for c in ast.walk(t)))
                 is_comment = bool(names & set(cparams))
-                is_title = "startswith('~')" in txt
+                is_title = "startswith('~')" in txt or ("TITLE" in txt.upper() and ".match(" in txt)
                 is_end = any(isinstance(c, ast.Compare) and "line_no" in ast.unparse(c) for c in ast.walk(t)) and linevar not in names
                 if not (is_blank or is_comment or is_title or is_end):
                     extra.append(txt)
@@ -780,3 +834,42 @@ def rule_parser_stateless(ctx):
         else:
             ctx.ok("HDR.PARSER-STATELESS", site, fi, fi.node, "%s leaves the parser unchanged" % m, nontrivial=m in ("metadata", "curves", "params"))
     ctx.floor("HDR.PARSER-STATELESS", 3)
+
+
+def rule_generator_resume(ctx):
+    """HDR.GEN-RESUME: an exception that leaves a generator finishes it - every later next() raises StopIteration.  A loop that
+    calls next(<generator>) in a try, handles some exception other than StopIteration and then carries on with the same generator
+    therefore does not skip one bad element: it silently loses every element after it (all header lines after the first junk line)."""
+    p = ctx.p
+    n = 0
+    for q, fi in sorted(p.functions.items()):
+        if isinstance(fi.node, ast.Lambda) or fi.module.name not in ("reader", "las"):
+            continue
+        for loop in [x for x in walk_shallow(fi.node) if isinstance(x, (ast.While, ast.For))]:
+            for tr in [x for x in ast.walk(loop) if isinstance(x, ast.Try)]:
+                nexts = [c for st in tr.body for c in ast.walk(st) if isinstance(c, ast.Call) and isinstance(c.func, ast.Name) and c.func.id == "next"
+                         and c.args and isinstance(c.args[0], ast.Name)]
+                if not nexts:
+                    continue
+                gen = nexts[0].args[0].id
+                # is it a generator of the package?  (bound from a call of a function that yields, or a parameter fed with one)
+                r = get_resolver(p)
+                srcs = [a_.value for a_ in walk_shallow(fi.node) if isinstance(a_, ast.Assign) and any(isinstance(t, ast.Name) and t.id == gen for t in a_.targets)]
+                is_gen = gen in fi.params() or any(isinstance(v, ast.Call) and any(
+                    any(isinstance(y, (ast.Yield, ast.YieldFrom)) for y in ast.walk(t.node)) for t in r.callees(fi, v)[0]) for v in srcs)
+                if not is_gen:
+                    continue
+                for h in tr.handlers:
+                    names = {getattr(x, "id", getattr(x, "attr", "")) for x in ast.walk(h.type)} if h.type is not None else {"<all>"}
+                    if names <= {"StopIteration"}:
+                        continue
+                    leaves = bool(h.body) and isinstance(h.body[-1], (ast.Break, ast.Return, ast.Raise))
+                    n += 1
+                    site = "%s#resume(%s)" % (fi.qual, gen)
+                    ctx.check(leaves, "HDR.GEN-RESUME", site, fi, h,
+                              "after an exception out of next(%s) the loop is left" % gen,
+                              "the loop in %s catches %s raised out of next(%s) and goes on to ask the same generator for the next element: a "
+                              "generator that has raised is finished, so every remaining element (every header line after the first "
+                              "unparsable one) is silently dropped" % (fi.qual, sorted(names), gen))
+    if n == 0:
+        ctx.ok("HDR.GEN-RESUME", "lasio#resume", None, 0, "no loop resumes a generator after catching an exception it raised", nontrivial=False)
